@@ -6,19 +6,7 @@ model of `propagate_dft` (tilt-free fields, no output mask); report the propagat
 open Lean Lentil Drv
 namespace Ops.C03
 
-@[instance_reducible] def realLikeFloat : RealLike Float where
-  ofInt := Float.ofInt
-  twoPi := Ops.C07.twoPi
-  sqrt := Float.sqrt
-  abs := Float.abs
-
-@[instance_reducible] def cxLikeCF : CxLike CF Float where
-  expI t := ⟨Float.cos t, Float.sin t⟩
-  ofReal x := ⟨x, 0.0⟩
-  conj z := ⟨z.re, -z.im⟩
-  divInt z n := ⟨z.re / Float.ofInt n, z.im / Float.ofInt n⟩
-
-attribute [local instance] realLikeFloat cxLikeCF
+attribute [local instance] Ops.C07.realLikeFloat Ops.C07.cxLikeCF
 
 def floats2 (j : Json) (k : String) : R (Float × Float) := do
   let a ← getFloats j k
